@@ -58,7 +58,7 @@ def main():
     ap.add_argument('--checks', default=','.join(f'C{i:02d}' for i in range(1, 21))); ap.add_argument('--seeds', default='')
     ap.add_argument('--benign', action='store_true', help='run the behaviour-preserving refactors (selftest/benign): every check must stay silent')
     ap.add_argument('--retry-errors', action='store_true', help='only re-run cells whose recorded exit code is neither 0 nor 1')
-    ap.add_argument('--reduced', action='store_true', help='seeded changes: the slow checks (C03, C09, C10, C13, C14, C20) are re-run only where they are the own check of the change or reported it in the recorded matrix, or where no cell is recorded yet; every other check is re-run for every change')
+    ap.add_argument('--reduced', action='store_true', help='the slow checks (C03, C09, C10, C13, C14, C20) are re-run only where they are the own check of the change or reported it in the recorded matrix, or where no cell is recorded yet; every other check is re-run for every change')
     a = ap.parse_args()
     checks = a.checks.split(',')
     ss = [s for s in (benign() if a.benign else seeds()) if not a.seeds or s[0] in a.seeds.split(',')]
@@ -66,9 +66,9 @@ def main():
     results = json.load(open(path)) if os.path.exists(path) else {}
     SLOW = ('C03', 'C09', 'C10', 'C13', 'C14', 'C20')
     def todo(n):
-        if a.reduced and not a.benign:
+        if a.reduced:
             row = results.get(n, {})
-            return [c for c in checks if c not in SLOW or c == n[:3] or not isinstance(row.get(c), dict) or row[c].get('rc') != 0]
+            return [c for c in checks if c not in SLOW or (not a.benign and c == n[:3]) or not isinstance(row.get(c), dict) or row[c].get('rc') != 0]
         if not a.retry_errors: return checks
         return [c for c in checks if results.get(n, {}).get(c, {}).get('rc') not in (0, 1)]
     with cf.ThreadPoolExecutor(a.jobs) as ex:
